@@ -127,6 +127,12 @@ def translate(components):
                 text = mod.translate(REPO, consts)
             with Lock('gen'):
                 write_if_changed(os.path.join(GEN, 'Extracted_%s.v' % c), text)
+            import calls
+            if c in calls.SPEC:
+                # complete call lists of the functions this component is modelled on (pinned by <c>/Calls.v)
+                ctext = calls.translate(REPO, c)
+                with Lock('gen'):
+                    write_if_changed(os.path.join(GEN, 'Extracted_calls_%s.v' % c), ctext)
             res[c] = None
         except (TranslateError, AssertionError, KeyError, IndexError, ValueError, FileNotFoundError, subprocess.CalledProcessError) as ex:
             res[c] = '%s: %s' % (type(ex).__name__, ex)
@@ -381,6 +387,7 @@ class Ctx:
 
     def translate(self, comps):
         res = translate(comps)
+        self.translated = list(getattr(self, 'translated', [])) + [c for c in comps if c not in getattr(self, 'translated', [])]
         ok = True
         for c, err in res.items():
             self.obligations += 1
@@ -425,6 +432,10 @@ class Ctx:
             self.discharged += n
             return False
         self.discharged += n + 1
+        # the complete call lists of the functions the translated components are modelled on
+        for c in getattr(self, 'translated', []):
+            if os.path.exists(os.path.join(COQ, c, 'Calls.v')) and not self.prove_dep('%s/Calls.v' % c, 'component %s is modelled on these functions: a call was added, dropped or replaced' % c):
+                return False
         if self.tier == 'thorough':
             # independent re-check of the compiled theory with coqchk (lists every axiom of every loaded library)
             self.obligations += 1
